@@ -28,9 +28,13 @@ S_i = struct("Si", [("a", INT)])
 S_f = struct("Sf", [("a", FLOAT)])
 S_cf = struct("Scf", [("a", CHAR), ("b", FLOAT)])
 S_dc = struct("Sdc", [("a", DOUBLE), ("b", CHAR)])
+S_nL = struct("SnL", [("s", S_L)])                                    # X87,X87UP through a nested struct: st(0)
+S_L1 = struct("SL1", [("a", (LDOUBLE, 1))])                           # ... through an array of one
+U_LL = struct("ULL", [("a", LDOUBLE), ("b", LDOUBLE)], union=True)    # ... union of two long doubles
+U_Ll = struct("ULl", [("a", LDOUBLE), ("b", LONG)], union=True)       # X87 merged with INTEGER: MEMORY
 
 STRUCTS = [S_ii, S_ll, S_d, S_dd, S_ff, S_fff, S_ld, S_dl, S_fi, S_fid, S_c3, S_c9, S_lll, S_L, U_ld, S_pk, S_nest, S_f4,
-           S_i, S_f, S_cf, S_dc]
+           S_i, S_f, S_cf, S_dc, S_nL, S_L1, U_LL, U_Ll]
 SCALARS = [INT, LONG, CHAR, FLOAT, DOUBLE, LDOUBLE, PTR]
 MENU = SCALARS + STRUCTS
 
@@ -169,7 +173,7 @@ class CalleeProbe(e2.Probe):
                                                             s.regs["rbx"] == z3.BitVec("in_rbx", 64), s.regs["r12"] == z3.BitVec("in_r12", 64),
                                                             s.regs["r13"] == z3.BitVec("in_r13", 64), s.regs["r14"] == z3.BitVec("in_r14", 64),
                                                             s.regs["r15"] == z3.BitVec("in_r15", 64))))
-            if len(s.st) != (1 if self.ret is LDOUBLE else 0):
+            if len(s.st) != (1 if abi.ret_class(self.ret) == ["X87"] else 0):
                 out.append(e2.Goal("x87depth/p%d" % pi, H, z3.BoolVal(False), note="x87 depth %d at ret" % len(s.st)))
         return out
 
